@@ -2,15 +2,31 @@
 mod common;
 mod c20;
 mod c07;
+mod c15;
 mod interp;
 
 use common::*;
 
 fn main() {
   let args: Vec<String> = std::env::args().collect();
-  if args.len() < 5 {
+  if args.len() < 5 && !(args.len() >= 2 && args[1] == "eval") {
     eprintln!("usage: mvh <prop> <seed> <quick|thorough|replay> <outdir> [replay-file]");
     std::process::exit(2);
+  }
+  if args.len() >= 2 && args[1] == "eval" {
+    // probing aid: one program per stdin line (literal \n for newlines); prints the canonical observation
+    std::panic::set_hook(Box::new(|_| {}));
+    let mut text = String::new();
+    use std::io::Read;
+    std::io::stdin().read_to_string(&mut text).unwrap();
+    for l in text.lines() {
+      if l.trim().is_empty() { continue; }
+      let src = l.replace("\\n", "\n");
+      let o = interp::eval_obs(&src);
+      let f = interp::eval(&src).map(|v| interp::form(&v)).unwrap_or("-");
+      println!("{:50} => {} [{}]", l, o, f);
+    }
+    return;
   }
   let prop = args[1].as_str();
   let seed: u64 = args[2].parse().unwrap_or(0);
@@ -22,6 +38,7 @@ fn main() {
   let (generate, exec): (fn(u64, bool, &mut Sink) -> Vec<String>, fn(&str) -> String) = match prop {
     "C20" => (c20::generate, c20::exec),
     "C07" => (c07::generate, c07::exec),
+    "C15" => (c15::generate, c15::exec),
     _ => { eprintln!("unknown property {}", prop); std::process::exit(2); }
   };
   let cases: Vec<String> = if mode == "replay" {
